@@ -127,11 +127,23 @@ def op_cds_add(a):
             s = CdsShortTimestamp.from_datetime(EPOCH58 + datetime.timedelta(days=a["st"]["days"], milliseconds=a["st"]["ms"]))
         else:
             s = _mk(a["st"])
-        if (td["us"] + td["secs"]) % 2:
-            # an earlier addition of less than a millisecond on the same object (adds nothing: stamps hold whole
-            # milliseconds, every addition is judged on its own)
-            s + datetime.timedelta(microseconds=1 + (td["us"] * 7 + td["secs"]) % 999)
-        r = s + datetime.timedelta(days=td["days"], seconds=td["secs"], microseconds=td["us"])
+        delta = datetime.timedelta(days=td["days"], seconds=td["secs"], microseconds=td["us"])
+        if a.get("via") != "from_dt" and (td["us"] + td["secs"]) % 2:
+            # an addition is a function of (stamp, timedelta): earlier additions of less than a millisecond on the same object
+            # that left the stamp where it was must not change what this one gives
+            for k in (600, 1 + (td["us"] * 7 + td["secs"]) % 999):
+                before = (int(s.ccsds_days), int(s.ms_of_day))
+                s + datetime.timedelta(microseconds=k)
+                if (int(s.ccsds_days), int(s.ms_of_day)) != before:
+                    s = _mk(a["st"])           # (a library that rounds up: start again without a history)
+                    break
+            else:
+                r = view(s + delta)
+                plain = view(_mk(a["st"]) + delta)
+                if r != plain:
+                    return {"view": r, "without_earlier_submillisecond_additions": plain}
+                return {"view": r}
+        r = s + delta
         return {"view": view(r)}
     return outcome(run)
 
